@@ -36,6 +36,38 @@ def _dense_block(fam, nr, nc):
     return b
 
 
+LAYOUT_RNG = None      # set by run(): the same logical block arrives in different memory layouts
+
+
+def _layout(d, rng):
+    """the dense block d as an array with the same values and another memory layout: C or Fortran ordered, a transposed, strided, reversed or
+    offset view of a larger array (what slicing and transposing Jacobians produces)"""
+    if rng is None or d.size == 0:
+        return d
+    nr, nc = d.shape
+    k = rng.randrange(8)
+    if k == 0:
+        return d
+    if k == 1:
+        return np.asfortranarray(d)
+    if k == 2:                                   # transposed view of a larger C-ordered array: column-major in memory, not F-contiguous
+        B = np.full((nc + 2, nr + 1), 99.0); B[:nc, :nr] = d.T
+        return B.T[:nr, :nc]
+    if k == 3:                                   # every second row and column of a larger array
+        B = np.full((2 * nr, 2 * nc), 99.0); B[::2, ::2] = d
+        return B[::2, ::2]
+    if k == 4:                                   # rows reversed
+        B = np.ascontiguousarray(d[::-1])
+        return B[::-1]
+    if k == 5:                                   # inner block of a Fortran-ordered array
+        B = np.asfortranarray(np.full((nr + 2, nc + 2), 99.0)); B[1:nr + 1, 1:nc + 1] = d
+        return B[1:nr + 1, 1:nc + 1]
+    if k == 6:                                   # columns reversed in a transposed array
+        B = np.ascontiguousarray(d.T[::-1])
+        return B[::-1].T
+    return np.array(d.tolist(), dtype=np.int64) if np.all(d == np.round(d)) else d      # integer dtype
+
+
 def _none(v):
     return None if v == NONE else v
 
@@ -57,7 +89,7 @@ def _value(kind, fam, nr, nc):
 
     d = _dense_block(fam, nr, nc)
     if kind == "dense":
-        return d
+        return _layout(d, LAYOUT_RNG)
     if kind == "sparse_coo":
         return coo_array(d)
     if kind == "sparse_csr":
@@ -100,9 +132,13 @@ def _conversions(coo):
     return out
 
 
-def apply_write(coo, last, rng):
+def apply_write(coo, last, rng, held=None):
     """Perform the write described by the spec's `last` record; returns 'ok' or 'rejected' (raised)."""
     op = last["op"]
+    if op == "poke":
+        kid = held["kid"]
+        kid[np.arange(kid.shape[0]), np.arange(kid.shape[1])] = _dense_block(last["fam"], kid.shape[0], kid.shape[1])
+        return "ok"
     r = _index(last["rix"], rng)
     c = _index(last["cix"], rng)
     if op == "none":
@@ -120,6 +156,8 @@ def apply_write(coo, last, rng):
         coo[r, c] = v
     except Exception:
         return "rejected"
+    if held is not None and op == "write" and last["kind"].startswith("nested"):
+        held["kid"] = v          # the caller keeps the nested container
     return "ok"
 
 
@@ -131,12 +169,13 @@ def replay_behaviour(states, ctx, rng, tag):
     coo = CooMatrix(shape)
     hist = []
     n = 0
+    held = {"kid": None}
     for st in states[1:]:
         last = st["last"]
         hist.append(last)
         exp_outcome = last.get("outcome", "ok")
         try:
-            got = apply_write(coo, last, rng)
+            got = apply_write(coo, last, rng, held)
         except Exception as ex:  # raised while building the value: harness problem
             raise tlc.MachineryError(f"cannot build write {last}: {type(ex).__name__}: {ex}")
         if got != exp_outcome:
@@ -157,12 +196,26 @@ def replay_behaviour(states, ctx, rng, tag):
                               f"{name} differs from the dense sum after {_short(last)} on shape {shape}: got {arr.tolist()} expected {ref.tolist()}",
                               {"shape": shape, "history": hist, "conversion": name})
                 return n
+        # the nested container the caller still holds keeps its own meaning
+        kd = st.get("kid")
+        if held["kid"] is not None and kd and kd["nr"] > 0 and kd["nc"] > 0:
+            kref = _acc_array(kd["acc"], (kd["nr"], kd["nc"]))
+            try:
+                karr = held["kid"].toarray()
+            except Exception as ex:
+                ctx.violation(f"{last['op']}:{last.get('kind', '')}:held-child:convert-raises", f"converting the nested container the caller holds raised {type(ex).__name__}: {ex} after {_short(last)}",
+                              {"shape": shape, "history": hist})
+                return n
+            if karr.shape != kref.shape or not np.array_equal(karr, kref):
+                ctx.violation(f"{last['op']}:{last.get('kind', '')}:held-child", f"the nested container the caller still holds changed its meaning after {_short(last)} on shape {shape}: "
+                              f"{karr.tolist()}, expected {kref.tolist()}", {"shape": shape, "history": hist})
+                return n
         n += 1
     return n
 
 
 def _ixform(last):
-    return last["rix"]["form"] + "/" + last["cix"]["form"]
+    return last["rix"]["form"] + "/" + last["cix"]["form"] if "rix" in last else "-"
 
 
 def _short(last):
@@ -172,6 +225,8 @@ def _short(last):
         if d["form"] == "int":
             return str(d["i"])
         return f"slice({d['start']},{d['stop']},{d['step']})"
+    if last["op"] == "poke":
+        return f"a write (family {last['fam']}) into the nested container handed in before"
     return f"{last['op']}[{ix(last['rix'])},{ix(last['cix'])}] kind={last.get('kind')} fam={last.get('fam')} block={last.get('nr')}x{last.get('nc')}"
 
 
@@ -191,12 +246,15 @@ INVARIANT TypeOK
 INVARIANT AccumulatesExactly
 INVARIANT IndicesInRange
 PROPERTY RejectedUnchanged
+PROPERTY KidIndependent
 """)
 
 
 def run(ctx):
+    global LAYOUT_RNG
     ctx.level = "model_checking"
     rng = ctx.rng
+    LAYOUT_RNG = rng
     states = trans = 0
     traces = writes = 0
     samples = []
@@ -230,6 +288,34 @@ def run(ctx):
             writes += replay_behaviour([g.nodes[s], g.nodes[d]], ctx, rng, "exh")
             traces += 1
         ctx.log(f"[C15] exhaustive {job}: {r.distinct} states, {len(g.edges)} single-write behaviours replayed")
+    # --- aliasing histories: every sequence of up to three writes of nested containers, dense blocks and writes into the held child -------
+    for (M, N) in ([(2, 2), (1, 3)] if ctx.thorough else [(2, 2)]):
+        job = (M, N, "one", 3, "alias", 5)
+        _, r, dot = one(job)
+        tlc.require_ok(r, f"Coo {job}")
+        if r.violated:
+            ctx.violation(f"spec:{r.violated}", f"TLC: {r.violated} violated in Coo {job}", {"stdout": r.stdout[-3000:]})
+            continue
+        states += r.distinct; trans += r.generated
+        g = tlc.parse_dot(dot + ".dot")
+        succ = {}
+        for (s_, d_, lab) in g.edges:
+            succ.setdefault(s_, []).append(d_)
+        has_pred = {d_ for (_, d_, _) in g.edges}
+        roots = [nid for nid in g.nodes if nid not in has_pred]
+        npaths = 0
+        stack = [[rt] for rt in roots]
+        while stack:
+            path = stack.pop()
+            nxt = succ.get(path[-1], [])
+            if not nxt or len(path) > 3:
+                if len(path) > 1:
+                    writes += replay_behaviour([g.nodes[x] for x in path], ctx, rng, "alias")
+                    traces += 1; npaths += 1
+                continue
+            for d_ in nxt:
+                stack.append(path + [d_])
+        ctx.log(f"[C15] aliasing histories {job}: {r.distinct} states, {npaths} complete write sequences replayed")
     # --- simulated long write sequences on larger shapes --------------------------------------------
     M, N, depth, num = (4, 5, 40, 30) if not ctx.thorough else (5, 5, 41, 300)
     cfg = os.path.join(ctx.scratch, "coo_sim.cfg")
@@ -252,10 +338,12 @@ def run(ctx):
         "states": states, "transitions": trans, "traces_validated_against_impl": traces,
         "writes_replayed": writes, "samples": samples, "exhaustive": True,
         "rule": "exhaustive: every write form of the catalogue (index forms x value kinds x value families, consistent and "
-                "inconsistent shapes, None) from the empty container; simulation: random write sequences up to 40 writes with overlaps",
+                "inconsistent shapes, None) from the empty container; aliasing histories: every sequence of up to 3 writes of {nested container, dense block} x {all, identity array, "
+                "1:, 0} index forms and writes into the nested container the caller still holds; simulation: random write sequences up to 40 writes with overlaps",
     }
     ctx.assumptions = ["block entries are small integers so float sums are exact", "any exception counts as 'rejected'",
-                       "triplet order inside the container is not compared (only conversions are observable)"]
+                       "triplet order inside the container is not compared (only conversions are observable)",
+                       "a dense block arrives in one of eight memory layouts chosen at random (C, Fortran, transposed / strided / reversed / offset views, integer dtype): its meaning does not depend on it"]
 
 
 def replay(ctx, path):
